@@ -14,6 +14,9 @@ Line-protocol driver for C09. Ops (see harness/cmd/c09/main.go for the Go side):
   bu|buc <hex>           UnMarshalBlock            -> err | panic | ok <header|nilhdr> <n> <tx>*
   gm <group>             MarshalGroup              -> <hex> <genhash of header>
   gu <hex>               UnMarshalGroup            -> err | panic | ok <group> <genhash of header>
+  Gu <hex>               proto.Unmarshal(GroupSlice); PbToGroups -> err | panic | ok <n> <group>*
+  mm <id> <pubkey>       MarshalMember             -> err | <hex>
+  mu <hex>               UnMarshalMember           -> err | ok <id> <pubkey>
   jt <time>              json.Marshal(time)        -> err | <hex>
   jr <hex>               RequestIds JSON decode    -> <reqids>
 
@@ -243,6 +246,15 @@ def step (_ : Unit) (line : String) : Unit × String :=
                 | .panic _ => "panic")
             | _ => "bad-op")
        | _ => "bad-op")
+    | ["mm", a, b] =>
+      (match pOptBytes a, pOptBytes b with
+       | some i, some k =>
+         (match marshalMember ⟨i, k⟩ with
+          | .ok bs => toHex bs
+          | .err => "err"
+          | .nilObj => "nil"
+          | .panic _ => "panic")
+       | _, _ => "bad-op")
     | "gm" :: ws =>
       (match pGroup ws with
        | some (g, []) => toHex (marshalGroup g) ++ " " ++ toHex (groupHeaderGenHash g.header)
@@ -280,6 +292,12 @@ def step (_ : Unit) (line : String) : Unit × String :=
                    | none => "ok nilhdr " ++ sTxs b.txs
                    | some h => if headerModelled h then "ok " ++ sHeader h ++ " " ++ sTxs b.txs else "unmodelled")
                 | o => showOutcome (fun _ => "") o)
+         else if op == "mu" then
+           showOutcome (fun m => sOptBytes m.id ++ " " ++ sOptBytes m.pubKey) (unmarshalMember bs)
+         else if op == "Gu" then
+           showOutcome (fun gs => match gs with
+             | [] => "0"
+             | _ => toString gs.length ++ " " ++ " ".intercalate (gs.map sGroup)) (unmarshalGroups bs)
          else if op == "gu" then
            showOutcome (fun g => sGroup g ++ " " ++ toHex (groupHeaderGenHash g.header)) (unmarshalGroup bs)
          else if op == "jr" then sReqIds (decReqIds bs)
